@@ -15,6 +15,7 @@ Case kinds (first element):
   wctab  = wcwidth of the code points used (absent = 1): wcwidth is outside the model
   stytab = style string -> (attrs identity, SGR sequence, has-style): the style
            machinery is outside the model (C19)
+Kinds 4-11: see impl_producer / impl_flush / impl_print_tokens; kinds 12-17: harness/c10_procs.py.
 End-to-end cases (oracle only, no model): a real PromptSession rendered on
 Vt100_Output(StringIO) with the text under test in the buffer, the prompt
 message, completion display/display_meta and the bottom toolbar."""
@@ -28,7 +29,8 @@ from common import *  # noqa
 
 PROP = "C10"
 TABLES = ["C10_DisplayMappings"]
-MODELS = [("c10", "Extract/ExC10.v", "run_C10pr")]
+MODELS = [("c10", "Extract/ExC10.v", "run_C10q")]
+import c10_procs
 
 sys.path.insert(0, os.path.join(VERIF, "gen"))
 
@@ -203,7 +205,8 @@ def impl_pipeline(case, env=None):
     from prompt_toolkit.renderer import _output_screen_diff
     env = env or StyleEnv()
     _, _wt, _st, cf, pf, steps = case
-    width, height, xpos, ypos, wrap, hscroll, align = cf
+    width, height, xpos, ypos, wrap, hscroll, align = cf[:7]
+    vscroll, vscroll2 = (cf[7], cf[8]) if len(cf) > 7 else (0, 0)      # round 6: vertical_scroll / vertical_scroll_2
     walign = [WindowAlign.LEFT, WindowAlign.CENTER, WindowAlign.RIGHT][align]
     pfx = None
     if pf:
@@ -220,7 +223,8 @@ def impl_pipeline(case, env=None):
         screen = Screen()
         ui = UIContent(get_line=lambda i: list(lines[i]), line_count=len(lines))
         win._copy_body(ui, screen, WritePosition(xpos, ypos, width, height), 0, width,
-                       wrap_lines=bool(wrap), get_line_prefix=pfx, horizontal_scroll=hscroll, align=walign)
+                       wrap_lines=bool(wrap), get_line_prefix=pfx, horizontal_scroll=hscroll, align=walign,
+                       vertical_scroll=vscroll, vertical_scroll_2=vscroll2)
         if app_sx:
             screen.append_style_to_content(unS(app_sx[0]))
         zwe = [[y, x, S(t)] for y, r in screen.zero_width_escapes.items() for x, t in r.items()]
@@ -426,11 +430,109 @@ def impl_readline_like(displays, metas=None):
     return asyncio.run(go())
 
 
+def notation_of(text):
+    """every control character in its caret (C0, DEL) / hex (C1) notation - the property's wording"""
+    return "".join(("^" + chr(ord(c) ^ 0x40) if ord(c) < 0x20 or ord(c) == 0x7F else "<%02x>" % ord(c)) if is_control(ord(c)) else c
+                   for c in text)
+
+
+def readline_notation_oracle(displays):
+    """-> None | (message, family)"""
+    runs = []
+    for ds in (displays, [notation_of(d) for d in displays]):
+        try:
+            r, data, log = with_watchdog(lambda: impl_readline_like(ds), 20)
+        except Hang:
+            return ("readline-like completion listing hung for %r" % (ds,), "hang")
+        except Exception as e:  # noqa
+            return ("readline-like completion listing raised %r for %r" % (e, ds), "raise:" + type(e).__name__)
+        runs.append([t for k, t, c in log if c == "renderer.py:print_formatted_text"])
+    if not runs[0] or not runs[1]:
+        return ("the readline-like listing was not printed for %r" % (displays,), "not-reached")
+    if runs[0] != runs[1]:
+        k = next((i for i, (a, b) in enumerate(zip(runs[0], runs[1])) if a != b), min(len(runs[0]), len(runs[1])))
+        return ("READLINE_LIKE completion listing: display texts %r are not printed in caret/hex notation: write #%d is %r, "
+                "expected %r (what the notation %r prints); whole listing %r"
+                % (displays, k, runs[0][k] if k < len(runs[0]) else None, runs[1][k] if k < len(runs[1]) else None,
+                   [notation_of(d) for d in displays], "".join(runs[0])), "stream-control")
+    return None
+
+
 class E2E:
     """A real PromptSession, rendered without running the event loop."""
 
+    def run_app(self, spec):
+        """family "app": a full-screen Application whose BufferControl carries the processors that a default
+        PromptSession does not use (search / bracket / multiple-cursor / white-space / tabs / AfterInput /
+        conditional / dynamic), with NumberedMargin + PromptMargin on the left and ScrollbarMargin on the right;
+        the text under test is in the buffer, BeforeInput / PromptMargin (message), AfterInput (display) and a
+        FormattedTextControl (toolbar)."""
+        async def go():
+            from prompt_toolkit.application import Application
+            from prompt_toolkit.application.current import create_app_session, set_app
+            from prompt_toolkit.buffer import Buffer
+            from prompt_toolkit.data_structures import Size
+            from prompt_toolkit.document import Document
+            from prompt_toolkit.enums import EditingMode
+            from prompt_toolkit.formatted_text import to_formatted_text
+            from prompt_toolkit.input import create_pipe_input
+            from prompt_toolkit.key_binding.vi_state import InputMode
+            from prompt_toolkit.layout import HSplit, Layout, Window
+            from prompt_toolkit.layout import processors as P
+            from prompt_toolkit.layout.controls import BufferControl, FormattedTextControl, SearchBufferControl
+            from prompt_toolkit.layout.margins import NumberedMargin, PromptMargin, ScrollbarMargin
+            from prompt_toolkit.selection import SelectionState
+            res = {"bytes": "", "log": [], "cells": [], "zwe": []}
+            variant = spec.get("variant", 0)
+            text = spec["buffer"]
+            with create_pipe_input() as inp:
+                out = rec_output_class()(io.StringIO(), lambda: Size(rows=spec["rows"], columns=spec["cols"]), term="xterm")
+                with create_app_session(input=inp, output=out):
+                    buf = Buffer(multiline=True, document=Document(text, min(len(text), 1)))    # cursor on the "(": matching bracket
+                    buf._load_history_task = True
+                    sbuf = Buffer(document=Document(text[1:3]))
+                    sbuf._load_history_task = True
+                    sbc = SearchBufferControl(buffer=sbuf, ignore_case=True)
+                    sbc.searcher_search_state.text = text[-3:-1] or "b"
+                    msg = lambda: to_formatted_text(spec["message"], style="class:pm")  # noqa
+                    procs = [P.HighlightSearchProcessor(), P.HighlightIncrementalSearchProcessor(), P.HighlightSelectionProcessor(),
+                             P.HighlightMatchingBracketProcessor(), P.DisplayMultipleCursors(), P.ShowLeadingWhiteSpaceProcessor(get_char=lambda: "\xb7"),
+                             P.ShowTrailingWhiteSpaceProcessor(get_char=lambda: "\xb7"), P.TabsProcessor(), P.BeforeInput(spec["message"], style="class:bi"),
+                             P.AfterInput(spec["display"], style="class:ai"), P.ConditionalProcessor(P.PasswordProcessor(), False),
+                             P.DynamicProcessor(lambda: None)]
+                    ctl = BufferControl(buffer=buf, input_processors=procs, include_default_input_processors=False, search_buffer_control=sbc)
+                    win = Window(ctl, wrap_lines=bool(variant & 2),
+                                 left_margins=[NumberedMargin(relative=bool(variant & 1), display_tildes=True),
+                                               PromptMargin(msg, lambda w, l, soft: to_formatted_text(spec["message"][:3]))],
+                                 right_margins=[ScrollbarMargin(display_arrows=True)])
+                    app = Application(layout=Layout(HSplit([win, Window(FormattedTextControl(spec["toolbar"]), height=1)])),
+                                      full_screen=True, editing_mode=EditingMode.VI if variant & 1 else EditingMode.EMACS)
+                    if variant & 1:
+                        app.vi_state.input_mode = InputMode.INSERT_MULTIPLE
+                        buf.multiple_cursor_positions = [0, max(0, len(text) - 1), len(text)]
+                    else:
+                        buf.selection_state = SelectionState(original_cursor_position=len(text))
+                    with set_app(app):
+                        for phase in (0, 1, 2):
+                            if phase == 1:
+                                buf.insert_text(spec["meta"] or "z")
+                            app.renderer.render(app, app.layout, is_done=(phase == 2))
+                            scr = app.renderer._last_screen if phase < 2 else None
+                            if scr is not None:
+                                res["cells"] += [(c.char, c.style) for r in scr.data_buffer.values() for c in r.values()]
+                                res["zwe"] += [t for r in scr.zero_width_escapes.values() for t in r.values()]
+                        for t in list(app._background_tasks):
+                            t.cancel()
+                res["bytes"] = out.stdout.getvalue()
+                res["log"] = out.log
+            return res
+        return asyncio.run(go())
+
     def run(self, spec):
         """spec: dict(buffer, message, display, meta, toolbar, cols, rows, multiline) -> dict(bytes, log, cells, zwe)"""
+        if spec.get("family") == "app":
+            return self.run_app(spec)
+
         async def go():
             from prompt_toolkit import PromptSession
             from prompt_toolkit.application.current import create_app_session, set_app
@@ -451,7 +553,12 @@ class E2E:
                 with create_app_session(input=inp, output=out):
                     from prompt_toolkit.shortcuts import CompleteStyle
                     mode = spec.get("mode", "")
-                    s = PromptSession(message=spec["message"], bottom_toolbar=spec["toolbar"], completer=C(),
+                    message, toolbar = spec["message"], spec["toolbar"]
+                    if spec.get("html"):        # prompt message / toolbar built by HTML(template).format(untrusted values)
+                        from prompt_toolkit.formatted_text import HTML
+                        message = HTML(spec["html"][0]).format(*spec["html"][1])
+                        toolbar = HTML(spec["html"][0]).format(*spec["html"][1])
+                    s = PromptSession(message=message, bottom_toolbar=toolbar, completer=C(),
                                       complete_while_typing=False, multiline=spec.get("multiline", False),
                                       complete_style=CompleteStyle.MULTI_COLUMN if mode == "multi_column" else CompleteStyle.COLUMN,
                                       vi_mode=(mode == "multicursor"), rprompt=spec["toolbar"] if mode == "rprompt" else None)
@@ -739,12 +846,14 @@ def gen_pipeline_cases(chk):
         wrapf = rng.randint(0, 1)
         cf = [width, height, xpos, ypos, wrapf,
               0 if (wrapf or rng.random() < 0.6) else rng.choice([1, 1, 2, 3, 5, 20]), rng.choice([0, 0, 0, 1, 2])]
+        if rng.random() < 0.25:       # vertical_scroll (lines skipped) / vertical_scroll_2 (rows of the first line above the window)
+            cf += [rng.choice([0, 1, 1, 2, 5]), rng.choice([0, 1, 2]) if wrapf else rng.choice([0, 0, 1])]
         pf = [] if rng.random() < 0.6 else [rand_frags(rng, 2, 2), rand_frags(rng, 2, 2)]
         cols = max(1, xpos + width + rng.choice([0, 0, 1, 3]))
         rows = ypos + height + rng.choice([0, 0, 1, -1]) if height > 1 else ypos + height
         steps = []
         for k in range(rng.choice([1, 2, 2, 3])):
-            lines = [rand_frags(rng, 4, 6) for _ in range(rng.randint(0, 3))]
+            lines = [rand_frags(rng, 4, 6) for _ in range(rng.randint(0, 3 if len(cf) == 7 else 5))]
             if k > 0 and rng.random() < 0.3:      # small edit of the previous content: exercises the diff
                 lines = [list(l) for l in steps[-1][0]]
                 if lines:
@@ -829,6 +938,22 @@ def gen_flush_cases(chk):
     return cases
 
 
+def gen_html_specs(chk):
+    """(template, values): every attribute that can carry a colour (fg, bg, color - alone, combined, in both orders, on
+    <style> and on other elements) x colour values around the mark x texts with 8-bit controls (ESC / BEL cannot occur in XML)"""
+    colours = ["ansired", "#ff0000", "[ZeroWidthEscape]", "x[ZeroWidthEscape]", "[ZeroWidthEscape]y", "[zerowidthescape]", "a b", ""]
+    texts = ["\x9b2J\x9d52;c;ZXZpbA==\x9c", "plain", "a\x85b"]
+    templates = ['<style fg="{}">{}</style>', '<style bg="{}">{}</style>', '<style color="{}">{}</style>', '<b color="{}">{}</b>',
+                 '<style color="{}" bg="ansiblue">{}</style>', '<style bg="ansiblue" color="{}">{}</style>',
+                 '<style fg="ansired" color="{}">{}</style>', '<style color="{}" fg="">{}</style>', '<u fg="{}"><i>{}</i></u>',
+                 '<x bg="{}">{}</x>', '<style fg="{0}" bg="{0}">{1}</style>']
+    specs = [(t, [c, x]) for t in templates for c in colours for x in (texts if "ZeroWidth" in c else texts[:1])]
+    rng = chk.rng
+    for _ in range(200 if chk.tier == "thorough" else 30):
+        specs.append((rng.choice(templates), [rng.choice(colours) + rng.choice(["", "[", "]", "[ZeroWidthEscape]"]), rand_text(rng, 4).replace("\x1b", "").replace("\x07", "")]))
+    return specs
+
+
 def gen_e2e_specs(chk):
     rng = chk.rng
     thorough = chk.tier == "thorough"
@@ -851,6 +976,12 @@ def gen_e2e_specs(chk):
             t = "(a" + pr_ + "b)" + pr_
             specs.append({"buffer": t, "message": "p" + pr_ + "> ", "display": "d" + pr_ + "e", "meta": "m" + pr_, "toolbar": "t" + pr_ + "z",
                           "cols": 40, "rows": 10, "family": "mode", "mode": mode, "multiline": mode == "multicursor"})
+    # the processors / margins that a default PromptSession does not use, in a full-screen Application
+    for i, pr_ in enumerate(probe + ["\x1b]0;t\x07", "\x8e", "\u754c"]):
+        for variant in range(4):
+            t = " (a" + pr_ + "\tb) " + pr_ + "\n  x" + pr_ + "(ab  "
+            specs.append({"buffer": t, "message": "p" + pr_ + "> ", "display": "d" + pr_ + "e", "meta": "m" + pr_, "toolbar": "t" + pr_ + "z",
+                          "cols": 40, "rows": 8, "family": "app", "mode": "app", "variant": variant})
     # byte level: a stdout with .buffer/.encoding; lone surrogates (undecodable file-name bytes), astral characters
     sur = [chr(c) for c in range(0xDC80, 0xDD00)]
     for enc in ENCODINGS:
@@ -883,8 +1014,8 @@ def describe(c, a, m):
         return "print_formatted_text(%r): impl tokens=%s model tokens=%s" % (frags_of(c[2]), str(a)[:300], str(m)[:300])
     if c[0] == 8:
         return "flush_stdout encoding=%s data=%r: impl bytes=%r model bytes=%r" % (ENCODINGS[c[1]], unS(c[2]), a, m)
-    if c[0] in (4, 5, 6, 7, 9, 10):
-        return "producer kind %d case=%s impl=%s model=%s" % (c[0], str(c)[:300], str(a)[:200], str(m)[:200])
+    if c[0] in (4, 5, 6, 7, 9, 10) + c10_procs.KINDS2:
+        return "producer kind %d case=%s impl=%s model=%s" % (c[0], str(c)[:400], str(a)[:300], str(m)[:300])
     where = "?"
     if isinstance(m, list) and isinstance(a, list):
         for k, (x, y) in enumerate(zip(a, m)):
@@ -905,7 +1036,7 @@ def tagger(c, a, m):
         return {"op": "print_formatted_text", "family": "print-model"}
     if c[0] == 8:
         return {"op": "flush_stdout", "family": "wire-model"}
-    if c[0] in (4, 5, 6, 7, 9, 10):
+    if c[0] in (4, 5, 6, 7, 9, 10) + c10_procs.KINDS2:
         return {"op": "producer-%d" % c[0], "family": "producer-model"}
     part = "?"
     if isinstance(m, list) and isinstance(a, list):
@@ -923,6 +1054,8 @@ def run_case_impl(c, env):
         return impl_write(c), None
     if c[0] in (4, 5, 6, 7, 9, 10):
         return impl_producer(c), None
+    if c[0] in c10_procs.KINDS2:
+        return c10_procs.impl_producer2(c), None
     if c[0] == 8:
         return impl_flush(c), None
     if c[0] == 11:
@@ -935,20 +1068,23 @@ def main(tier):
     # structural side condition (also enforced by the generator: the proofs do not build without it)
     import gen_t_c10
     problems, sites = gen_t_c10.scan(REPO)
+    vt_problems, vt_rows = gen_t_c10.scan_vt100(REPO)
+    problems = problems + vt_problems
     chk.coverage["structural_sites"] = len(sites)
+    chk.coverage["vt100_raw_sites"] = len(vt_rows)
     for p in problems[:5]:
         chk.violation("structure", "screen store / raw write outside the reviewed shapes: " + p,
                       {"kind": "structure", "site": p.split(":")[0] + ":" + p.split(" line ")[0].split(":")[-1]},
                       {"problem": p, "how": "gen/gen_t_c10.py scan(<repo>)"}, no_input=True)
     pr = chk.proofs("Props/C10.v", tables=TABLES)
-    okm, logm = build_model("c10", "Extract/ExC10.v", "run_C10pr", tables=TABLES)
+    okm, logm = build_model("c10", "Extract/ExC10.v", "run_C10q", tables=TABLES)
     if not okm:
         chk.violation("tie", "model does not build: " + logm[-400:], {"kind": "model-build"}, {"log": logm[-3000:]}, no_input=True)
         proof_gate(chk, pr)
         return chk.finish()
 
     env = StyleEnv()
-    cases = load_corpus(PROP) + gen_char_cases(chk) + gen_write_cases(chk) + gen_pipeline_cases(chk) + gen_producer_cases(chk) + gen_flush_cases(chk) + gen_print_cases(chk)
+    cases = load_corpus(PROP) + gen_char_cases(chk) + gen_write_cases(chk) + gen_pipeline_cases(chk) + gen_producer_cases(chk) + c10_procs.gen_cases(chk, rand_text, STYLES + ["[ZeroWidth", "Escape]", "x[ZeroWidthEscape", "[ZeroWidthEscape]"], wctab_for) + gen_flush_cases(chk) + gen_print_cases(chk)
     dist = {"char": 0, "write": 0, "copy_body+render": 0, "e2e_single": 0, "e2e_mixed": 0, "e2e_pair": 0, "e2e_mode": 0, "e2e_readline": 0, "print_tokens": 0, "e2e_wire": 0, "flush": 0, "print_formatted_text": 0, "e2e_dumb": 0, "producers": 0}
     impl_results, oracle_bad = [], set()
     for i, c in enumerate(cases):
@@ -1024,6 +1160,14 @@ def main(tier):
             nontrivial = True
             tags = {"op": "producer-%d" % c[0], "family": bad[1] if bad else ""}
             rep = {"case": c, "how": "harness/c10.py impl_producer (4 FormattedTextControl, 5 BufferControl, 6 _get_menu_item_fragments, 7 explode_text_fragments)"}
+        elif c[0] in c10_procs.KINDS2:
+            dist["producers2_k%d" % c[0]] = dist.get("producers2_k%d" % c[0], 0) + 1
+            if res == c10_procs.EXC:
+                dist["producers2_raise"] = dist.get("producers2_raise", 0) + 1
+            bad = ("producer raised: %r" % (res,), "raise") if (res and res[0] in ("EXC", "HANG")) else c10_procs.oracle_producer2(c, res)
+            nontrivial = res != c10_procs.EXC
+            tags = {"op": "producer-%d" % c[0], "family": bad[1] if bad else ""}
+            rep = {"case": c, "how": "harness/c10_procs.py impl_producer2 (12 BufferControl through the full processor chain, 13-15 margins, 16 multi-column menu row, 17 re.finditer literal)"}
         else:
             dist["copy_body+render"] += 1
             if info is None:
@@ -1071,6 +1215,8 @@ def main(tier):
     # end to end: a real PromptSession
     e2e = E2E()
     mode_reached = {}
+    app_classes = set()
+    dist["e2e_app"] = 0
     for spec in gen_e2e_specs(chk):
         try:
             res = with_watchdog(lambda: e2e.run(spec), 15)
@@ -1086,7 +1232,9 @@ def main(tier):
             # the state must really be active, otherwise the spec exercises nothing
             classes = set(w for _ch, st in res["cells"] for w in st.split())
             want = {"multi_column": "MultiColumnCompletionMenuControl", "arg": "class:prompt.arg", "multicursor": "class:multiple-cursors",
-                    "search": "class:prompt.search", "rprompt": "class:rprompt"}[spec["mode"]]
+                    "search": "class:prompt.search", "rprompt": "class:rprompt", "app": "class:line-number"}[spec["mode"]]
+            if spec["mode"] == "app":
+                app_classes.update(w for w in classes if w.startswith("class:"))
             reached = mode_reached.setdefault(spec["mode"], [0, 0])
             reached[1] += 1
             if want in classes or want in res.get("controls", ()):
@@ -1104,7 +1252,58 @@ def main(tier):
             chk.violation("tie", "e2e mode %r was active in only %d of %d specs" % (m_, hit, tot),
                           {"kind": "mode-not-reached", "mode": m_}, {"mode": m_}, no_input=True)
     chk.coverage["e2e_modes_active"] = {m_: "%d/%d" % tuple(v) for m_, v in mode_reached.items()}
+    chk.coverage["e2e_app_classes_seen"] = sorted(app_classes)
+    need = {"class:line-number", "class:line-number.current", "class:tilde", "class:scrollbar.arrow", "class:scrollbar.button", "class:pm",
+            "class:bi", "class:ai", "class:tab", "class:search", "class:incsearch", "class:selected", "class:multiple-cursors",
+            "class:matching-bracket.cursor", "class:leading-whitespace", "class:training-whitespace"}
+    if dist["e2e_app"] and not need <= app_classes:
+        chk.violation("tie", "e2e app family: producers never seen on the screen: %r" % sorted(need - app_classes),
+                      {"kind": "mode-not-reached", "mode": "app-classes"}, {"missing": sorted(need - app_classes)}, no_input=True)
     chk.coverage["traces_validated_against_impl"] += dist["e2e_single"] + dist["e2e_mixed"]
+
+    # formatted text built from a template and untrusted values (HTML(template).format(colour, text)): HTML has no way to
+    # mark text [ZeroWidthEscape], so whatever the values are, either the template is refused (ValueError) or no fragment
+    # carries the mark - and on a real PromptSession (message + toolbar) nothing of the text is stored as an escape
+    dist["html_producer"] = 0
+    dist["e2e_html"] = 0
+    for template, values in gen_html_specs(chk):
+        from prompt_toolkit.formatted_text import HTML, to_formatted_text
+        try:
+            frags = [(st, tx) for st, tx, *_ in to_formatted_text(HTML(template).format(*values))]
+        except ValueError:
+            dist["html_producer"] += 1
+            continue            # refused
+        except Exception as e:  # noqa
+            chk.violation("oracle", "HTML(%r).format(*%r) raised %r" % (template, values, e), {"op": "producer-html", "family": "raise"},
+                          {"html": [template, values]})
+            continue
+        dist["html_producer"] += 1
+        chk.count_case([19, S(template), [S(v) for v in values]], True)
+        marked = [(st, tx) for st, tx in frags if "[ZeroWidthEscape]" in st]
+        if marked:
+            chk.violation("oracle", "HTML(%r).format(*%r) marks text %r as [ZeroWidthEscape] (style %r): interpolated values are not an "
+                          "explicit zero-width-escape marking" % (template, values, marked[0][1], marked[0][0]),
+                          {"op": "producer-html", "family": "producer-marks"},
+                          {"html": [template, values], "observed": frags[:6], "how": "to_formatted_text(HTML(template).format(*values))"})
+        spec = {"buffer": "x", "message": "", "display": "d", "meta": "m", "toolbar": "", "cols": 60, "rows": 8, "family": "html",
+                "html": [template, values]}
+        try:
+            res = with_watchdog(lambda: e2e.run(spec), 15)
+        except ValueError:
+            continue            # refused while rendering: nothing was sent
+        except Hang:
+            chk.violation("oracle", "PromptSession render hung for %r" % (spec,), {"op": "e2e", "family": "hang"}, {"spec": spec})
+            continue
+        except Exception as e:  # noqa
+            chk.violation("oracle", "PromptSession render raised %r for %r" % (e, spec), {"op": "e2e", "family": "raise:" + type(e).__name__},
+                          {"spec": spec, "how": "harness/c10.py E2E.run(spec)"})
+            continue
+        dist["e2e_html"] += 1
+        bad = oracle_e2e(res, "PromptSession(message=toolbar=HTML(%r).format(*%r))" % (template, values))
+        if bad:
+            chk.violation("oracle", bad[0], {"op": "e2e", "family": bad[1]},
+                          {"spec": spec, "clause": bad[0], "observed_bytes": res["bytes"][:2000],
+                           "how": "harness/c10.py E2E.run(spec): PromptSession with message = bottom_toolbar = HTML(template).format(*values)"})
 
     # READLINE_LIKE completion listing: printed above the prompt with app.print_text, never a screen cell
     rl_specs = [["d" + x + "e", "plain"] for x in ("\x07", "\x9b2J", "\x9d0;t\x9c", "\x00", "\x7f", "\x85", "\x1b[31m", "\x0e", "\x8e", "ok")] + \
@@ -1139,6 +1338,21 @@ def main(tier):
                           {"readline": displays, "observed": data, "clause": bad[0],
                            "how": "harness/c10.py impl_readline_like(displays): PromptSession(complete_style=READLINE_LIKE), keys 'x' TAB Enter on a pipe input"})
 
+    # ... for EVERY control character (LF and CR included: the listing's own row ends are LF too): printing a display text
+    # must give byte for byte what printing its caret / hex notation gives (same rows, same columns, nothing raw)
+    ctrl = [chr(c) for c in range(0xA0) if is_control(c)]
+    for gi in range(0, len(ctrl), 8):
+        grp = ctrl[gi:gi + 8]
+        displays = ["d%se%d" % (c, i) for i, c in enumerate(grp)] + ["plain"]
+        bad = readline_notation_oracle(displays)
+        dist["e2e_readline"] += 1
+        chk.count_case([12, [S(d) for d in displays]], True)
+        if bad:
+            chk.violation("oracle", bad[0], {"op": "e2e-readline", "family": bad[1]},
+                          {"readline": displays, "readline_notation": True, "clause": bad[0],
+                           "how": "harness/c10.py readline_notation_oracle(displays): the READLINE_LIKE listing of the display texts "
+                                  "vs the listing of their caret/hex notation (impl_readline_like twice)"})
+
     # dumb terminal prompt (TERM=dumb): message and typed characters go through Vt100_Output.write only
     dumb = [("p" + chr(c) + "> ", "x") for c in (0x00, 0x07, 0x08, 0x0d, 0x1b, 0x7f, 0x85, 0x9b, 0xa0)] + \
            [("> ", "a" + chr(c)) for c in (0x01, 0x07, 0x1b, 0x9b)] + [("\x1b]0;t\x07\x9b2J> ", "y")]
@@ -1170,7 +1384,7 @@ def main(tier):
     k = 600 if chk.tier == "thorough" else 150
     idx = sorted(chk.rng.sample(range(len(cases)), min(k, len(cases))))
     pairs = [(cases[i], impl_results[i]) for i in idx]
-    bad, logs = vm_crosscheck(PROP, "run_C10pr", "Model.C10_Screen Model.C10_Producers Model.C10_Wire Model.C10_Print", pairs, per_file=75)
+    bad, logs = vm_crosscheck(PROP, "run_C10q", "Model.C10_Screen Model.C10_Producers Model.C10_Wire Model.C10_Print Model.C10_Procs", pairs, per_file=75)
     chk.coverage["vm_compute_crosschecked"] = len(pairs)
     model_bad = set(i for i, (a, m) in enumerate(zip(impl_results, model_results)) if sx_norm(a) != m)
     vm_bad = set(idx[b] for b in bad if isinstance(b, int))
@@ -1189,6 +1403,12 @@ def main(tier):
         "(controls, ESC/CSI/OSC/DCS, 8-bit C1, NBSP, wide, combining, zero-width, [ZeroWidthEscape] fragments, prefixes, wrapping), "
         "compared cell by cell and token by token with the extracted model; oracle-only cases: print_formatted_text and a real "
         "PromptSession with the text in buffer, prompt message, completion display/meta and bottom toolbar (3 renders each). "
+        "round 6: kinds 12-17 (harness/c10_procs.py) - BufferControl lines through the real merged processor chain "
+        "(search / incremental search / matching bracket / multiple cursors / tabs / leading+trailing white space / "
+        "AfterInput / ShowArg / Conditional / Dynamic + the earlier processors at any place, 1-4 processors, incl. the "
+        "exceptions the chain raises), NumberedMargin / ScrollbarMargin / PromptMargin through FormattedTextControl, "
+        "one row of the multi-column menu, re.finditer of a literal - compared fragment by fragment with the model; "
+        "e2e family app: a full-screen Application with all those processors and margins, rendered 3x; "
         "non-trivial = the case contains a control character / ESC (char, write, e2e) or sends more than 8 tokens (pipeline); "
         "distinct by hash of the whole case")
     chk.assumptions += [
@@ -1199,10 +1419,14 @@ def main(tier):
         "screen cells are created only through Char/_CHAR_CACHE at the store sites classified by gen/gen_t_c10.py "
         "(AST scan, fail closed, on every run); Window.char, key-buffer data and scrollbar arrow symbols are application/"
         "key data, not displayed content",
-        "cursor/menu bookkeeping and vertical scroll offsets of _copy_body, and set_title, are outside the model (horizontal scroll and alignment are modelled); the dumb-terminal "
+        "cursor/menu bookkeeping of _copy_body and set_title are outside the model (horizontal scroll, alignment and - round 6 - vertical_scroll/vertical_scroll_2 are modelled); the dumb-terminal "
         "prompt (PromptSession._dumb_prompt -> _dumb_terminal_text -> Vt100_Output.write) is outside the model: its write sites are "
         "checked by the AST scan and its output by the oracle",
-        "'control character' = C0 (0x00-0x1F), DEL, C1 (0x80-0x9F)"]
+        "'control character' = C0 (0x00-0x1F), DEL, C1 (0x80-0x9F)",
+        "kinds 12-16: what other objects compute is part of the case (Document.selection_range_at_line, "
+        "_get_positions_to_highlight, cursor row/col, re.finditer under IGNORECASE, the float arithmetic of the scrollbar, "
+        "column width / scroll of the multi-column menu); TabsProcessor with a negative tabstop and get_char() results "
+        "of any length are modelled as coded (_ExplodedList.__setitem__)"]
     return chk.finish()
 
 
@@ -1213,6 +1437,11 @@ def replay(data):
         res = E2E().run(rep["spec"])
         bad = oracle_e2e(res, "PromptSession")
         print("spec=%r\nbytes=%r" % (rep["spec"], res["bytes"][:1500]))
+        print("ORACLE FAILS: " + bad[0] if bad else "oracle ok")
+        return 1 if bad else 0
+    if "readline" in rep and rep.get("readline_notation"):
+        bad = readline_notation_oracle(rep["readline"])
+        print("PromptSession(complete_style=READLINE_LIKE), displays %r, keys x TAB Enter" % (rep["readline"],))
         print("ORACLE FAILS: " + bad[0] if bad else "oracle ok")
         return 1 if bad else 0
     if "readline" in rep:
@@ -1259,6 +1488,10 @@ def replay(data):
             print("impl -> %r" % (res,))
             if c and c[0] in (4, 5, 6, 7, 9, 10):
                 bad = oracle_producer(c, res)
+                print("ORACLE FAILS: " + bad[0] if bad else "oracle ok")
+                rc = 1 if bad else 0
+            elif c and c[0] in c10_procs.KINDS2:
+                bad = c10_procs.oracle_producer2(c, res)
                 print("ORACLE FAILS: " + bad[0] if bad else "oracle ok")
                 rc = 1 if bad else 0
         m = run_model("c10", [c])[0]
